@@ -242,9 +242,71 @@ def run_case(sh, ops, tmpdir, case):
     return absent, saved
 
 
+def many_groups_case(sh, s, tmpdir, case):
+    """an index with hundreds of 6-byte prefix groups (widely spaced ids, or a database beyond 2^24 objects): queries across
+    group boundaries, save/load, pickle, deletions of whole groups, save/load again - all against the sorted dict"""
+    import pickle
+    from ZODB.fsIndex import fsIndex
+    from ZODB.utils import p64
+    rnd = random.Random(s)
+    G = rnd.choice([255, 256, 257, 300, 520, 700])
+    step = rnd.choice([1, 3, 257]) << 16
+    base = rnd.choice([0, 5 << 16, 0xffff0000])
+    m = {}
+    idx = fsIndex()
+    for g in range(G):
+        for low in rnd.sample([0, 1, 2, 0x7fff, 0xfffe, 0xffff], rnd.choice([1, 1, 2, 3])):
+            k = p64(base + g * step + low)
+            v = rnd.randrange(2 ** 48)
+            m[k] = v
+            idx[k] = v
+    fn = os.path.join(tmpdir, 'many.index')
+
+    def check(tag, ix):
+        ks = sorted(m)
+        got = outcome(lambda: list(ix.items()))
+        sh.count('many_group_indexes_compared')
+        if got != ('ok', [(k, m[k]) for k in ks]) or len(ix) != len(m):
+            n_got = len(got[1]) if got[0] == 'ok' else got
+            sh.violation('fsindex:many-prefix-groups:%s-items-differ-from-sorted-dict' % tag, {'groups': G, 'keys': len(m), 'got': n_got}, case)
+            return False
+        for _ in range(60 if ks else 0):
+            k = rnd.choice(ks)
+            q = p64(max(0, min(2 ** 64 - 1, int.from_bytes(k, 'big') + rnd.choice([-1, 0, 1, -65536, 65536, step]))))
+            i = bisect.bisect_left(ks, q)
+            j = bisect.bisect_right(ks, q)
+            exp_min = ('ok', ks[i]) if i < len(ks) else ('exc', 'ValueError')
+            exp_max = ('ok', ks[j - 1]) if j else ('exc', 'ValueError')
+            sh.count('queries_compared', 2)
+            if outcome(lambda: ix.minKey(q)) != exp_min or outcome(lambda: ix.maxKey(q)) != exp_max or ix.get(q) != m.get(q):
+                sh.violation('fsindex:many-prefix-groups:%s-query-differs-from-sorted-dict' % tag, {'groups': G, 'q': q}, case)
+                return False
+        return True
+    if not check('fresh', idx):
+        return
+    idx.save(12345, fn)
+    info = fsIndex.load(fn)
+    sh.count('save_load_roundtrips')
+    if info['pos'] != 12345 or not check('loaded', info['index']):
+        return
+    idx = info['index']
+    if not check('pickled', pickle.loads(pickle.dumps(idx, rnd.choice([1, 2, 3])))):
+        return
+    for k in [k for k in sorted(m) if (int.from_bytes(k, 'big') >> 16) % 3 == 0]:
+        del m[k]
+        del idx[k]
+    idx.save(777, fn)
+    info = fsIndex.load(fn)
+    sh.count('save_load_roundtrips')
+    check('loaded-after-deleting-groups', info['index'])
+
+
 def run_shard(params):
     sh = Shard(params)
     tmp = sh.fresh_dir('idx')
+    for j in range(3):
+        cm = {'seed': params['seed'] * 131 + params['shard'] * 7 + j, 'many_groups': True}
+        guarded(sh, 'fsindex', cm, lambda: many_groups_case(sh, cm['seed'], tmp, cm))
     for i in case_indices(params):
         if not sh.time_left():
             break
@@ -260,6 +322,9 @@ def run_shard(params):
 
 def replay(case, scratch):
     sh = Shard({'scratch': scratch})
+    if case.get('many_groups'):
+        many_groups_case(sh, case['seed'], sh.fresh_dir('idx'), case)
+        return sh.violations
     rnd = random.Random(case['seed'])
     ops = gen_ops(rnd, rnd.choice([8, 20, 40, 80]))
     run_case(sh, ops, sh.fresh_dir('idx'), case)
